@@ -485,6 +485,39 @@ def r05h(run):
                             "declared str with max_length=4", node=it)
 
 
+def r05i(run):
+    """every addition policy that is not a boolean and not empty is a type declaration: parse_addition_type interpreted
+    (absint.py) over None / False / True / a class / a typing alias (not a class) / a name given as text"""
+    from ..absint import Interp, Obj, Raised
+    f = run.repo.func("utype.parser.base", "BaseParser.parse_addition_type")
+    B = f.cls
+    methods = {m.name: m.node for m in B.methods.values()} if B else {}
+    methods.pop("parse_annotation", None)
+    cases = [("None", None, False), ("False", False, False), ("True", True, False), ("a class", int, True),
+             ("a typing alias (List[int]: not a class)", Obj("typing-alias"), True), ("a name given as text", "Later", True)]
+    bad = []
+    for label, addition, typed in cases:
+        self_ = Obj("BaseParser", options=Obj("Options", addition=addition), addition_type=None,
+                    parse_annotation=lambda annotation=None, **kw: ("parsed", annotation))
+        ip = Interp(methods=methods, module=f.module)
+        try:
+            ip.call_function(f.node, (self_,), {})
+        except Raised as r:
+            bad.append((label, f"raises {r.cls}"))
+            continue
+        got = self_.addition_type
+        want = ("parsed", addition) if typed else None
+        if got != want:
+            bad.append((label, got))
+    run.check("R05i", f, "a non-boolean addition policy is parsed as the type of unknown keys", not bad,
+              construct="addition type not recorded",
+              message="BaseParser.parse_addition_type: " + "; ".join(
+                  f"for addition = {l} the recorded type is {g!r}" for l, g in bad[:3]),
+              necessity="`**kwargs: Optional[int]` / Options(addition=Dict[str, int]) record no type: unknown keys are kept "
+                        "unconverted at construction and on item assignment")
+    run.floor("R05i", "addition policies evaluated", len(cases), 6)
+
+
 def check(run):
     run.rules_run += ["R05a", "R05b", "R05c", "R05d", "R05e", "R05f", "R05g", "R05h", "R06f"]
     run.explain("C05 (enforcement skeleton, not the contract itself): (R05a) get_default returns copy_value(default), "
@@ -502,8 +535,15 @@ def check(run):
     run.rule(r05f, run)
     run.rule(r05g, run)
     run.rule(r05h, run)
+    run.rules_run.append("R05i")
+    run.rule(r05i, run)
+    # shared with C06: the alias tables of a case-insensitive field use the same folding as the lookups
     # shared with C06: the alias tables are rebuilt from the current fields (an alias dropped by a re-declaration is gone)
-    run.rules_run.append("R06h")
+    run.rules_run += ["R06h", "R06e"]
     run.rule(c06.r06h, run)
+    run.rule(c06.r06e, run)
     pd, A, B = c06.siblings(run)
     run.rule(c06.r06f, run, A, B)
+    from . import c10 as _c10
+    run.rules_run.append("R05j")
+    run.rule(_c10.option_defaults, run, "R05j", {'ignore_required': 'False', 'no_default': 'False', 'defer_default': 'False', 'force_default': 'unprovided', 'addition': 'None', 'ignore_alias_conflicts': 'False'}, "the field contract applies as declared under the default options")
